@@ -43,7 +43,14 @@ Inductive op :=
 | OIterate (start : nat) (stride : Z)         (* QueueIterator(q, start, stride): the values visited *)
 | ORemoveSortedDups                           (* RemoveSortedDuplicateItems() *)
 | ORemoveDups                                 (* RemoveDuplicateItems() = Sort() + RemoveSortedDuplicateItems() *)
-| OInsertSorted (x : Z).                      (* InsertItemAtSortedPosition(x) *)
+| OInsertSorted (x : Z)                       (* InsertItemAtSortedPosition(x) *)
+(* the argument is a reference to an item held by the Queue itself: q.AddTail(q[i]) etc. *)
+| OAddTailRef (i : nat) | OAddHeadRef (i : nat) | OInsertAtRef (idx i : nat) | OReplaceRef (idx i : nat)
+| ORemoveAllRef (i : nat)
+| OShrinkToFit (extra : nat)                  (* ShrinkToFit(extra) = EnsureSize(GetNumItems()+extra, false, 0, true) *)
+| OEnsureCanAdd (n : nat)                     (* EnsureCanAdd(n)   = EnsureSize(GetNumItems()+n) *)
+| OReplaceAll (x : Z)                         (* ReplaceAllItems(x) *)
+| OPieces.                                    (* GetArrayPointer(0,..) and GetArrayPointer(1,..): the contiguous pieces of the window *)
 
 Inductive out := OStatus (ok : bool) | OVal (v : option Z) | ONum (n : nat) | OIdx (i : option nat) | ONone
                | OList (l : list Z).
@@ -175,6 +182,21 @@ Definition step0 (l : list Z) (o : op) : list Z * out :=
   | ORemoveSortedDups => let k := dedup_adj l in (k, ONum (length l - length k))
   | ORemoveDups => let k := dedup_adj (l0_sort false l 0 (length l)) in (k, ONum (length l - length k))
   | OInsertSorted x => let p := sorted_pos l x in (l0_insert_at l p [x], OIdx (Some p))
+  | OAddTailRef i => if i <? length l then (l ++ [nth i l 0%Z], OStatus true) else (l, OStatus false)
+  | OAddHeadRef i => if i <? length l then (nth i l 0%Z :: l, OStatus true) else (l, OStatus false)
+  | OInsertAtRef idx i =>
+      if i <? length l then (l0_insert_at l (Nat.min idx (length l)) [nth i l 0%Z], OStatus true) else (l, OStatus false)
+  | OReplaceRef idx i =>
+      if (idx <? length l) && (i <? length l) then (upd l idx (nth i l 0%Z), OStatus true) else (l, OStatus false)
+  | ORemoveAllRef i =>
+      if i <? length l then
+        let x := nth i l 0%Z in
+        (filter (fun y => negb (Z.eqb y x)) l, ONum (length (filter (fun y => Z.eqb y x) l)))
+      else (l, ONum 0)
+  | OShrinkToFit _ => (l, OStatus true)
+  | OEnsureCanAdd _ => (l, OStatus true)
+  | OReplaceAll x => (repeat x (length l), ONone)
+  | OPieces => (l, OList l)
   end.
 
 (* ---- two ideal sequences (operations that involve a second Queue, or the Queue itself as argument) *)
@@ -189,7 +211,8 @@ Inductive op2 :=
 | OStartsWith (b : bool) | OEndsWith (b : bool)   (* this.StartsWith(other) / EndsWith *)
 | OAddTailMultiQ (b self : bool) (start num : nat)        (* this.AddTailMulti(src, start, num); src = this when self *)
 | OAddHeadMultiQ (b self : bool) (start num : nat)
-| OInsertItemsAtQ (b self : bool) (idx start num : nat).
+| OInsertItemsAtQ (b self : bool) (idx start num : nat)
+| OCompare (b : bool).                            (* this < other / this > other: -1, 0 or 1 (lexicographicalCompare) *)
 
 Definition slice (l : list Z) (start num : nat) : list Z := firstn num (skipn start l).
 
@@ -200,13 +223,23 @@ Fixpoint zlist_eqb (a b : list Z) : bool :=
   | _, _ => false
   end.
 
+(* lexicographicalCompare over the common range, then by length; [ga]/[gb] read item i *)
+Fixpoint lex_loop (ga gb : nat -> Z) (i k : nat) : Z :=
+  match k with
+  | 0 => 0%Z
+  | S k' => if Z.ltb (ga i) (gb i) then (-1)%Z else if Z.ltb (gb i) (ga i) then 1%Z else lex_loop ga gb (i + 1) k'
+  end.
+Definition lex_cmp (ga : nat -> Z) (ca : nat) (gb : nat -> Z) (cb : nat) : Z :=
+  let r := lex_loop ga gb 0 (Nat.min ca cb) in
+  if Z.eqb r 0 then (if ca <? cb then (-1)%Z else if cb <? ca then 1%Z else 0%Z) else r.
+
 Definition sel {A} (b : bool) (p : A * A) : A * A := if b then (snd p, fst p) else p.   (* (this, other) *)
 
 (* which queue is [this] *)
 Definition op2_this (o : op2) : bool :=
   match o with
   | OOn b _ | OSwapContents b | OPlunder b | OCopyFromQ b | OAssign b | OStartsWith b | OEndsWith b
-  | OAddTailMultiQ b _ _ _ | OAddHeadMultiQ b _ _ _ | OInsertItemsAtQ b _ _ _ _ => b
+  | OAddTailMultiQ b _ _ _ | OAddHeadMultiQ b _ _ _ | OInsertItemsAtQ b _ _ _ _ | OCompare b => b
   | OEqual => false
   end.
 
@@ -228,6 +261,7 @@ Definition step20 (p : list Z * list Z) (o : op2) : (list Z * list Z) * out :=
       (sel b (slice (if self then t else r) start num ++ t, r), OStatus true)
   | OInsertItemsAtQ _ self idx start num =>
       (sel b (l0_insert_at t (Nat.min idx (length t)) (slice (if self then t else r) start num), r), OStatus true)
+  | OCompare _ => (p, OVal (Some (lex_cmp (fun i => nth i t 0%Z) (length t) (fun i => nth i r 0%Z) (length r))))
   end.
 
 (* ------------------------------------------------------------------ L1: the code's layout *)
@@ -484,6 +518,14 @@ Definition swap_contents_aux (sm lg : q1) : q1 * q1 :=
              else mkQ SNull [] 0 (head lg) (tail lg) (inl lg) in
   (sm', lg').
 
+(* the un-repaired SwapContentsAux (finding F35): the items moved out of sm's in-object array stay behind in it *)
+Definition swap_contents_aux_old (sm lg : q1) : q1 * q1 :=
+  let ni := cnt sm in
+  let has := 0 <? qsize lg in
+  (mkQ (st lg) (arr lg) (cnt lg) (if has then head lg else 0) (if has then tail lg else 0) (arr sm),
+   if 0 <? ni then mkQ SSmall (abs sm ++ skipn ni (inl lg)) ni 0 (ni - 1) []
+   else mkQ SNull [] 0 (head lg) (tail lg) (inl lg)).
+
 Definition swap_contents (a b : q1) : q1 * q1 :=
   match st a, st b with
   | SSmall, SSmall =>
@@ -561,6 +603,14 @@ Definition insert_sorted (q : q1) (x : Z) : q1 * nat :=
   let p := sorted_pos (abs q) x in
   ((if p =? 0 then add_head q x else insert_at q p x), p).
 
+(* GetArrayPointer(0, len) / GetArrayPointer(1, len): the window as at most two contiguous runs of slots *)
+Definition pieces (q : q1) : list Z * list Z :=
+  match cnt q with
+  | 0 => ([], [])
+  | _ => (firstn (if head q <=? tail q then tail q - head q + 1 else qsize q - head q) (skipn (head q) (arr q)),
+          if tail q <? head q then firstn (tail q + 1) (arr q) else [])
+  end.
+
 Definition step1 (q : q1) (o : op) : q1 * out :=
   match o with
   | OAddTail x => (add_tail q x, OStatus true)
@@ -596,6 +646,17 @@ Definition step1 (q : q1) (o : op) : q1 * out :=
   | ORemoveSortedDups => let '(q', k) := remove_sorted_dups q in (q', ONum k)
   | ORemoveDups => let '(q', k) := remove_sorted_dups (sort_items q false 0 (cnt q)) in (q', ONum k)
   | OInsertSorted x => let '(q', p) := insert_sorted q x in (q', OIdx (Some p))
+  | OAddTailRef i => if i <? cnt q then (add_tail q (getu q i), OStatus true) else (q, OStatus false)
+  | OAddHeadRef i => if i <? cnt q then (add_head q (getu q i), OStatus true) else (q, OStatus false)
+  | OInsertAtRef idx i => if i <? cnt q then (insert_at q idx (getu q i), OStatus true) else (q, OStatus false)
+  | OReplaceRef idx i =>
+      if (idx <? cnt q) && (i <? cnt q) then (setu q idx (getu q i), OStatus true) else (q, OStatus false)
+  | ORemoveAllRef i =>
+      if i <? cnt q then let '(q', k) := remove_all_instances q (getu q i) in (q', ONum k) else (q, ONum 0)
+  | OShrinkToFit e => (ensure_size q (cnt q + e) false 0 true, OStatus true)
+  | OEnsureCanAdd n => (ensure_size q (cnt q + n) false 0 false, OStatus true)
+  | OReplaceAll x => (write_from q 0 (repeat x (cnt q)), ONone)
+  | OPieces => (q, OList (fst (pieces q) ++ snd (pieces q)))
   end.
 
 Definition run1 (ops : list op) : q1 * list out :=
@@ -617,6 +678,7 @@ Definition step2 (p : q1 * q1) (o : op2) : (q1 * q1) * out :=
   | OAddHeadMultiQ _ self start num => (sel b (add_head_multi_q t (if self then abs t else abs r) start num, r), OStatus true)
   | OInsertItemsAtQ _ self idx start num =>
       (sel b (insert_items_at_q t (if self then abs t else abs r) idx start num, r), OStatus true)
+  | OCompare _ => (p, OVal (Some (lex_cmp (getu t) (cnt t) (getu r) (cnt r))))
   end.
 
 Definition run2 (ops : list op2) : (q1 * q1) * list out :=
